@@ -389,6 +389,15 @@ class Interp:
                 r = m_contains(b, a)
                 if isinstance(op, ast.In): return r
                 return (not r) if isinstance(r, bool) else SBool(z3.Not(r.e))
+            if isinstance(op, (ast.In, ast.NotIn)) and isinstance(b, AssocDict):
+                (found, _x) = b.lookup(a)
+                return found if isinstance(op, ast.In) else (not found)
+            if isinstance(op, (ast.In, ast.NotIn)) and isinstance(b, (list, tuple)):
+                found = False
+                for x in b:
+                    if _key_eq(a, x):
+                        found = True; break
+                return found if isinstance(op, ast.In) else (not found)
             if isinstance(op, ast.Eq): return a == b
             if isinstance(op, ast.NotEq): return a != b
             if isinstance(op, ast.Is): return a is b
@@ -422,6 +431,22 @@ class Interp:
                         found, x = d.lookup(k)
                         return x if found else default
                     return _get
+            if isinstance(v, (list, tuple)) and e.attr == 'index':
+                def _index(x, seq=v):
+                    # list.index / tuple.index over possibly symbolic strings: the first element EQUAL to x (a decision per element)
+                    n = 0
+                    for y in seq:
+                        if _key_eq(x, y): return n
+                        n += 1
+                    raise PyRaise(ValueError())
+                return _index
+            if isinstance(v, (list, tuple)) and e.attr == 'count':
+                def _count(x, seq=v):
+                    n = 0
+                    for y in seq:
+                        if _key_eq(x, y): n += 1
+                    return n
+                return _count
             if isinstance(v, (SStr, str)):
                 if e.attr == 'join': return lambda it, sep=v: self.join(sep, it)
                 if e.attr in STR_METHODS: return lambda s=lift(v), f=STR_METHODS[e.attr]: f(s)
